@@ -12,6 +12,8 @@ package dlnproof
 
 //@ func (*Proof).Verify
 //@   props C06 C11 C12 C05 C10
+//@   deadpoints 2
+//@   note dead: the `p.Alpha[i] == nil || p.T[i] == nil` return inside the main loop (the two range loops before it already dereferenced every entry; wfDLN(p) makes them non-nil)
 //@   requires h1 != nil && h2 != nil && N != nil
 //@   requires p != nil ==> wfDLN(p)
 //@   ensures result ==> (p != nil && val(N) > 0)
